@@ -102,7 +102,98 @@ def stat_writers(ctx, pl):
     return writers, key_site, first_stage_line
 
 
+def rule_z5(ctx) -> None:
+    """The run statistics are the sum over exactly the batches whose rows are returned: in Balancer.rebalance the batch
+    statistics are merged under the same conditions under which the batch rows are collected."""
+    ctx.rule("C18-Z5", "batch statistics are merged exactly where the batch rows are collected", 1)
+    prog = ctx.prog
+    reb = prog.func("synrbl.balancing.Balancer.rebalance")
+    cfg = CFG(reb.node)
+    merges = [c for c in own_nodes(reb.node) if isinstance(c, ast.Call) and (ctx.res.resolve_callee(c, reb) or ("", ""))[1].endswith(".merge_stats")]
+    ctx.require(merges, "rebalance no longer merges the batch statistics with merge_stats")
+    # the batch result: first element of the tuple returned by the per-batch call
+    pairs = []
+    for n in own_nodes(reb.node):
+        if isinstance(n, ast.Assign) and len(n.targets) == 1 and isinstance(n.targets[0], ast.Tuple) and len(n.targets[0].elts) == 2 and all(isinstance(e, ast.Name) for e in n.targets[0].elts) and isinstance(n.value, ast.Call):
+            tgt = ctx.res.resolve_callee(n.value, reb)
+            if tgt and tgt[0] == "func" and tgt[1].endswith("__rebalance_batch"):
+                pairs.append((n.targets[0].elts[0].id, n.targets[0].elts[1].id))
+    ctx.require(len(pairs) == 1, "rebalance no longer unpacks (rows, statistics) from __rebalance_batch")
+    rows_nm, stats_nm = pairs[0]
+    collects = []
+    for n in own_nodes(reb.node):
+        if isinstance(n, ast.Call) and isinstance(n.func, ast.Attribute) and n.func.attr in ("extend", "append") and any(isinstance(x, ast.Name) and x.id == rows_nm for a in n.args for x in ast.walk(a)):
+            collects.append(n)
+        if isinstance(n, ast.AugAssign) and isinstance(n.op, ast.Add) and any(isinstance(x, ast.Name) and x.id == rows_nm for x in ast.walk(n.value)):
+            collects.append(n)
+    ctx.require(collects, "rebalance no longer collects the rows of a batch")
+
+    sinks = {m.args[0].id for m in merges if m.args and isinstance(m.args[0], ast.Name)}
+
+    def guard_set(node):
+        out = set()
+        for c, p in cfg.guards(cfg.node_of(node)):
+            if names_in(c) and names_in(c) <= sinks:
+                continue  # `stats is not None` only decides whether anybody listens; it does not select batches
+            nc = normal_compare(c, p)
+            out.add("%s %s %s" % (unparse(nc[0]), nc[1], unparse(nc[2])) if nc else ("" if p else "not ") + unparse(c))
+        return out
+
+    def neutral(g):
+        return g
+
+    want = set()
+    for c in collects:
+        want |= neutral(guard_set(c))
+    for m in merges:
+        if not any(isinstance(x, ast.Name) and x.id == stats_nm for a in m.args for x in ast.walk(a)):
+            continue
+        have = neutral(guard_set(m))
+        ok = have == want
+        ctx.instance("C18-Z5", "merge_stats under %s; rows collected under %s" % (sorted(have) or "no condition", sorted(want) or "no condition"), reb.loc(m), ok=ok)
+        if not ok:
+            ctx.finding("C18-Z5", "Balancer.rebalance:merge-vs-collect", reb.loc(m), "the statistics of a batch are merged under %s but its rows are collected under %s: the counters then cover batches whose rows are not in the output (or miss batches that are)" % (sorted(have) or "no condition", sorted(want) or "no condition"))
+
+
+def rule_z6(ctx) -> None:
+    """balanced_cnt is computed by the rule-based stage from the comparator label and the carbon label alone (Z3).  The
+    validator must label a row input-balanced under exactly those two tests (plus `not yet solved`), otherwise count and
+    labels describe different sets."""
+    ctx.rule("C18-Z6", "the validator labels a row solved under exactly: label == 'Balance', carbon label == 'balanced', not yet solved", 3)
+    prog = ctx.prog
+    vc = prog.func("synrbl.postprocess.Validator.check")
+    cfg = CFG(vc.node)
+    stores = [n for n in own_nodes(vc.node) if isinstance(n, ast.Assign) and isinstance(n.value, ast.Constant) and n.value.value is True and any(isinstance(t, ast.Subscript) and unparse(t.slice) == "self.solved_col" for t in n.targets)]
+    ctx.require(stores, "Validator.check no longer stores solved := True")
+    for st in stores:
+        row = next(unparse(t.value) for t in st.targets if isinstance(t, ast.Subscript))
+        kinds = {}
+        extra = []
+        for c, p in cfg.guards(cfg.node_of(st)):
+            nc = normal_compare(c, p)
+            txt = ("" if p else "not ") + unparse(c)
+            if nc and nc[1] == "==" and const_str(nc[2]) == "Balance" and isinstance(nc[0], ast.Name):
+                kinds["label"] = txt
+            elif nc and nc[1] == "==" and const_str(nc[2]) == "balanced" and unparse(nc[0]) == "%s[self.carbon_balance_col]" % row:
+                kinds["carbon"] = txt
+            elif not p and unparse(c) == "%s[self.solved_col]" % row:
+                kinds["unsolved"] = txt
+            elif nc and nc[1] in ("==", "is") and unparse(nc[0]) == "%s[self.solved_col]" % row and unparse(nc[2]) == "False":
+                kinds["unsolved"] = txt
+            else:
+                extra.append(txt)
+        for k in ("label", "carbon", "unsolved"):
+            ctx.instance("C18-Z6", "solved := True guarded by %s test: %s" % (k, kinds.get(k)), vc.loc(st), ok=k in kinds)
+            if k not in kinds:
+                ctx.finding("C18-Z6", "Validator.check:label-condition:missing-%s" % k, vc.loc(st), "the validator labels rows solved without the %s test that balanced_cnt is derived from" % k)
+        if extra:
+            ctx.instance("C18-Z6", "additional condition(s) on the label: %s" % extra, vc.loc(st), ok=False)
+            ctx.finding("C18-Z6", "Validator.check:label-condition:extra", vc.loc(st), "the validator labels a row solved only if additionally %s holds, a test balanced_cnt (computed in the rule-based stage from the comparator and carbon labels alone) does not apply: rows are counted as balanced but not labelled input-balanced" % extra)
+
+
 def check(ctx) -> None:
+    rule_z5(ctx)
+    rule_z6(ctx)
     pl = Pipeline(ctx)
     prog = ctx.prog
     f = pl.func
